@@ -693,6 +693,7 @@ func (g *Gtp5g) CreateFAR(lSeid uint64, req *ie.IE) error {
 func (g *Gtp5g) UpdateFAR(lSeid uint64, req *ie.IE) error {
 	var farid uint64
 	var attrs []nl.Attr
+	var newAct *report.ApplyAction
 
 	ies, err := req.UpdateFAR()
 	if err != nil {
@@ -720,7 +721,7 @@ func (g *Gtp5g) UpdateFAR(lSeid uint64, req *ie.IE) error {
 				Type:  gtp5gnl.FAR_APPLY_ACTION,
 				Value: nl.AttrU16(act.Flags),
 			})
-			g.applyAction(lSeid, int(farid), act)
+			newAct = &act
 		case ie.UpdateForwardingParameters:
 			xs, err := i.UpdateForwardingParameters()
 			if err != nil {
@@ -749,7 +750,28 @@ func (g *Gtp5g) UpdateFAR(lSeid uint64, req *ie.IE) error {
 	}
 
 	oid := gtp5gnl.OID{lSeid, farid}
-	return gtp5gnl.UpdateFAROID(g.client, g.link.link, oid, attrs)
+
+	// Packets buffered for this FAR are released only after the update has been applied, so
+	// that they leave with the FAR's new forwarding parameters, and independently of where
+	// the FAR ID stands among the IEs.
+	buffering := false
+	if newAct != nil {
+		far, err1 := gtp5gnl.GetFAROID(g.client, g.link.link, oid)
+		if err1 != nil {
+			g.log.Errorf("UpdateFAR GetFAROID err: %+v", err1)
+		} else {
+			buffering = far.Action&report.APPLY_ACT_BUFF != 0
+		}
+	}
+
+	err = gtp5gnl.UpdateFAROID(g.client, g.link.link, oid, attrs)
+	if err != nil {
+		return err
+	}
+	if buffering {
+		g.applyAction(lSeid, int(farid), *newAct)
+	}
+	return nil
 }
 
 func (g *Gtp5g) RemoveFAR(lSeid uint64, req *ie.IE) error {
@@ -1591,14 +1613,13 @@ func (g *Gtp5g) HandleReport(handler report.Handler) {
 	g.ps.Handle(handler, g.psQueryURR)
 }
 
+// applyAction releases the packets buffered for a FAR that was buffering until now and
+// has just been updated to the given action.
 func (g *Gtp5g) applyAction(lSeid uint64, farid int, action report.ApplyAction) {
 	oid := gtp5gnl.OID{lSeid, uint64(farid)}
 	far, err := gtp5gnl.GetFAROID(g.client, g.link.link, oid)
 	if err != nil {
 		g.log.Errorf("applyAction err: %+v", err)
-		return
-	}
-	if far.Action&report.APPLY_ACT_BUFF == 0 {
 		return
 	}
 	switch {
